@@ -1,6 +1,7 @@
 import NutilsVerif.Core.Proto
 import NutilsVerif.Model.C11
 import NutilsVerif.Model.C11Alg
+import NutilsVerif.Model.C11Axes
 open NutilsVerif NutilsVerif.Proto NutilsVerif.C11
 
 /-!
@@ -242,9 +243,37 @@ def handleAlg (tab expr : String) : String :=
         | none => "none"
       s!"{s.shape}|{s.len o}|{" ".intercalate (l.map showWord)}|{" ".intercalate gets}"
 
+/-! ### derived axes of structured topologies: `dimaxis|i j mod isperiodic|ops|ibound` with ops a blank separated list of
+`R` (refined) and `G start stop` (getitem of an explicit slice); answer: the derived DimAxis, its two interface axes and its
+boundary axes -/
+
+def showAxis (a : Axis) : String := s!"{a.i} {a.j} {a.mod} {showB a.isdim} {a.ibound} {showB a.side}"
+
+def applyDimOps (d : DimAx) : List String → Option DimAx
+  | [] => some d
+  | "R" :: rest => applyDimOps d.refined rest
+  | "G" :: a :: b :: rest =>
+    match a.toNat?, b.toNat? with
+    | some a, some b => if a < b ∧ b ≤ d.len then applyDimOps (d.getitem a b) rest else none
+    | _, _ => none
+  | _ => none
+
+def handleDimAxis (ax ops ib : String) : String :=
+  match parseInts ax, ib.toNat? with
+  | some [i, j, m, p], some ib =>
+    if (p ≠ 0 ∧ p ≠ 1) ∨ j < i then "bad-request" else
+    match applyDimOps { i := i, j := j, mod := m, isperiodic := p == 1 } (words ops) with
+    | some d =>
+      let bnd := d.boundaries ib
+      let opp := bnd.map fun a => a.intOpposite ib
+      s!"{d.i} {d.j} {d.mod} {showB d.isperiodic}|{showAxis (d.intaxis ib true)}|{showAxis (d.intaxis ib false)}|{";".intercalate (bnd.map showAxis)}|{";".intercalate (opp.map showAxis)}"
+    | none => "bad-request"
+  | _, _ => "bad-request"
+
 def handle (line : String) : String :=
   match fields line with
   | ["alg", tab, expr] => handleAlg tab expr
+  | ["dimaxis", ax, ops, ib] => handleDimAxis ax ops ib
   | ["item", it] =>
     match parseAll pItem it with
     | some it =>
